@@ -348,7 +348,10 @@ func assignOne(destValue reflect.Value, taken any, to string) (reflect.Value, er
 			return destValue, fmt.Errorf("field mapping to a struct field but output is not a struct, type=%v", destValue.Type())
 		}
 
-		field := destValue.FieldByName(path)
+		field, err := fieldByName(destValue, path, true)
+		if err != nil {
+			return destValue, err
+		}
 		if !field.IsValid() {
 			return destValue, fmt.Errorf("field mapping to a struct field, but field not found. field=%v, outputType=%v", path, destValue.Type())
 		}
@@ -395,8 +398,37 @@ func newInstanceByType(typ reflect.Type) reflect.Value {
 	}
 }
 
+// fieldByName is v.FieldByName for a struct value v, except that it does not panic when the field is promoted through
+// an embedded struct pointer that is nil: with instantiate (target side) the embedded pointer is instantiated on the
+// way, as a named pointer field on the path is; without (source side) it is an error, as a nil named pointer is.
+// The invalid Value means that there is no such field.
+func fieldByName(v reflect.Value, name string, instantiate bool) (reflect.Value, error) {
+	sf, ok := v.Type().FieldByName(name)
+	if !ok {
+		return reflect.Value{}, nil
+	}
+
+	for i, idx := range sf.Index {
+		if i > 0 && v.Kind() == reflect.Ptr {
+			if v.IsNil() {
+				if !instantiate || !v.CanSet() {
+					return reflect.Value{}, fmt.Errorf("field mapping through an embedded struct pointer, but it is nil. field=%v, type=%v", name, v.Type())
+				}
+				v.Set(reflect.New(v.Type().Elem()))
+			}
+			v = v.Elem()
+		}
+		v = v.Field(idx)
+	}
+
+	return v, nil
+}
+
 func checkAndExtractFromField(fromField string, input reflect.Value) (reflect.Value, error) {
-	f := input.FieldByName(fromField)
+	f, err := fieldByName(input, fromField, false)
+	if err != nil {
+		return reflect.Value{}, err
+	}
 	if !f.IsValid() {
 		return reflect.Value{}, fmt.Errorf("field mapping from a struct field, but field not found. field=%v, inputType=%v", fromField, input.Type())
 	}
@@ -439,6 +471,11 @@ func checkAndExtractFromMapKey(fromMapKey string, input reflect.Value) (reflect.
 }
 
 func checkAndExtractFieldType(paths []string, typ reflect.Type) (extracted reflect.Type, intermediateInterface bool, err error) {
+	return extractFieldType(paths, typ, false)
+}
+
+// extractFieldType walks a field path through a type. A target path must in addition be instantiable at request time.
+func extractFieldType(paths []string, typ reflect.Type, target bool) (extracted reflect.Type, intermediateInterface bool, err error) {
 	if len(paths) == 1 && len(paths[0]) == 0 {
 		return typ, false, nil
 	}
@@ -472,6 +509,16 @@ func checkAndExtractFieldType(paths []string, typ reflect.Type) (extracted refle
 
 			if !f.IsExported() {
 				return nil, false, fmt.Errorf("type[%v] has an unexported field[%s]", extracted.String(), field)
+			}
+
+			if target {
+				// a field promoted through an embedded struct pointer: the pointer is instantiated at request time,
+				// which reflection cannot do for an embedded pointer to an unexported struct type
+				for j := 1; j < len(f.Index); j++ {
+					if ef := extracted.FieldByIndex(f.Index[:j]); ef.Type.Kind() == reflect.Ptr && !ef.IsExported() {
+						return nil, false, fmt.Errorf("type[%v]: field[%s] is promoted through the unexported embedded pointer[%s], which cannot be instantiated", extracted, field, ef.Name)
+					}
+				}
 			}
 
 			extracted = f.Type
@@ -513,7 +560,10 @@ func checkAndExtractToField(toField string, output, toSet reflect.Value) (field 
 		return reflect.Value{}, fmt.Errorf("field mapping to a struct field but output is not a struct, type=%v", output.Type())
 	}
 
-	field = output.FieldByName(toField)
+	field, err = fieldByName(output, toField, true)
+	if err != nil {
+		return reflect.Value{}, err
+	}
 	if !field.IsValid() {
 		return reflect.Value{}, fmt.Errorf("field mapping to a struct field, but field not found. field=%v, outputType=%v", toField, output.Type())
 	}
@@ -720,7 +770,7 @@ func validateStaticValues(successorType reflect.Type, values map[string]any) err
 
 	for path, value := range values {
 		fieldPath := splitFieldPath(path)
-		fieldType, intermediateInterface, err := checkAndExtractFieldType(fieldPath, successorType)
+		fieldType, intermediateInterface, err := extractFieldType(fieldPath, successorType, true)
 		if err != nil {
 			return fmt.Errorf("static check failed for static value at %v: %w", fieldPath, err)
 		}
@@ -773,7 +823,7 @@ func validateFieldMapping(predecessorType reflect.Type, successorType reflect.Ty
 			return nil, fmt.Errorf("static check failed for mapping %s: %w", mapping, err)
 		}
 
-		successorFieldType, successorIntermediateInterface, err = checkAndExtractFieldType(splitFieldPath(mapping.to), successorType)
+		successorFieldType, successorIntermediateInterface, err = extractFieldType(splitFieldPath(mapping.to), successorType, true)
 		if err != nil {
 			return nil, fmt.Errorf("static check failed for mapping %s: %w", mapping, err)
 		}
